@@ -283,6 +283,9 @@ RULES = {
     'pairs09': 'accepted configurations x requests answered with debug on and off; non-preflights must get identical responses, preflights must not reach the handler; distinct by case hash',
     'twins': 'accepted configurations x a twin obtained by permuting/duplicating list entries, re-casing header names, re-spelling normalisable methods, adding safelisted methods/response headers; both middlewares answer derived requests and the Go responses are compared; distinct by case hash',
     'roundtrip': 'accepted configurations: middlewares from c, from Config(), zero+Reconfigure(&c), Reconfigure(Config()); five derived requests in both debug modes compared pairwise; Config() stable after one round trip; distinct by case hash',
+    'schedule': 'configuration pairs (incl. to/from passthrough) x debug x requests derived from them x three schedule points (first Header() call, WriteHeader, entry of the wrapped handler) x three operations (Reconfigure to the other configuration, SetDebug flip, Config()) executed exactly at that point from inside the request; the response must be that of the state at request entry (compared with a fresh middleware in that state, Go against Go) and the next request that of the new state',
+    'stress': '12 reader goroutines against 2 reconfiguring goroutines (alternating two configurations, checking Config() against the two normal forms) and one SetDebug toggler; every response must equal the response of one of the four (configuration, debug) states; thorough tier runs a -race build',
+    'allocs': 'testing.AllocsPerRun(20, ServeHTTP) with a reusable writer for 56 families (allow-all / discrete / `*`+Authorization / credentialed `*` configurations x debug on/off x actual GET with long Origin, preflights with long Origin / long ACRM / long ACRH name / many ACRH elements / many ACRH lines / padded allowed list) at every size of the family; every family is a distinct non-trivial case',
     'history': 'random operation sequences (SetDebug, Reconfigure nil/valid/invalid/Config()) over 1-3 middlewares with probes after every step; non-trivial = state-changing or observing operation; distinct by case hash',
 }
 
@@ -337,13 +340,14 @@ PROPS = {
     'C05': dict(suites=[('validate', 6000, 150000)], cmps=[C('validate', 'full', 'spec')]),
     'C06': dict(suites=[('roundtrip', 1500, 60000), ('history', 150, 4000), ('validate', 2000, 50000)],
                 cmps=[C('roundtrip', 'full', 'spec'), C('history', 'dec', 'tie'), C('validate', 'full', 'tie')]),
-    'C07': dict(suites=[('history', 100, 2000)], cmps=[C('history', 'dec', 'tie')]),
-    'C08': dict(suites=[('history', 150, 4000)], cmps=[C('history', 'dec', 'tie')]),
-    'C09': dict(suites=[('history', 200, 5000), ('pairs09', 3000, 100000)], cmps=[C('history', 'dec', 'tie'), C('pairs09', 'full', 'spec')]),
+    'C07': dict(suites=[('schedule', 250, 6000), ('stress', 6, 20), ('history', 100, 2000)],
+                cmps=[C('schedule', 'full', 'spec'), C('stress', 'full', 'spec'), C('history', 'dec', 'tie')]),
+    'C08': dict(suites=[('history', 250, 6000)], cmps=[C('history', 'dec', 'spec')]),
+    'C09': dict(suites=[('history', 250, 6000), ('pairs09', 3000, 100000)], cmps=[C('history', 'dec', 'spec'), C('pairs09', 'full', 'spec')]),
     'C10': dict(suites=[('serve', 5000, 120000), ('pairs10', 5000, 150000)], cmps=[C('serve', 'vary', 'tie'), C('pairs10', 'full', 'spec')]),
     'C11': dict(suites=[('serve', 6000, 150000)], cmps=[C('serve', 'c11', 'spec')]),
     'C12': dict(suites=[('history', 150, 4000, ('-adversarial',)), ('serve', 2000, 50000, ('-adversarial',))],
-                cmps=[C('history', 'dec', 'tie'), C('serve', 'dec', 'tie')]),
+                cmps=[C('history', 'dec', 'spec'), C('serve', 'dec', 'spec')]),
     'C13': dict(suites=[('lex', 4000, 150000)], cmps=[C('lex', 'full', 'tie', only=('pattern',)), C('lex', 'full', 'tie', only=('parse',))]),
     'C14': dict(suites=[('acrh', 3000, 150000), ('serve', 2000, 50000)], cmps=[C('acrh', 'full', 'spec'), C('serve', 'bitsH', 'spec')]),
     'C15': dict(suites=[('twins', 4000, 150000), ('validate', 2000, 50000)], cmps=[C('twins', 'full', 'spec'), C('validate', 'full', 'tie')]),
@@ -351,7 +355,11 @@ PROPS = {
     'C17': dict(suites=[('lex', 1000, 30000), ('tree', 500, 20000), ('acrh', 1000, 30000), ('validate', 1500, 50000),
                         ('serve', 2000, 60000), ('errors', 50, 1000), ('history', 50, 1000)],
                 cmps=[C(s, 'panic', 'spec') for s in ('lex', 'tree', 'acrh', 'validate', 'serve', 'errors', 'history')]),
-    'C18': dict(suites=[('serve', 1000, 20000)], cmps=[C('serve', 'dec', 'tie')]),
+    'C18': dict(suites=[('allocs', 1, 2), ('serve', 1000, 20000)], cmps=[C('allocs', 'full', 'spec'), C('serve', 'dec', 'tie')], level='other',
+                explanation='PARTIAL (category other): a Lean cost-model theorem (at most 4 allocating header primitives per request, independent of all sizes), '
+                            'regenerated loop/install facts proved by decide (no allocating construct and only allow-listed callees inside loops on the request path), and measured conformance: '
+                            'testing.AllocsPerRun around ServeHTTP for 56 families (4 configuration kinds x debug x 7 request kinds) at sizes 1 B .. 100 000 (thorough: .. 1 MiB); '
+                            'the count must not grow within a family and must stay <= 8. Escape analysis and the runtime are outside any model; the measurement is what ties the claim to the code.'),
     'C19': dict(suites=[('errors', 150, 5000), ('validate', 2000, 50000)], cmps=[C('errors', 'full', 'spec'), C('validate', 'errcount', 'spec')]),
 }
 
